@@ -85,7 +85,11 @@ def run(ctx, config='rel-all'):
             ctx.anchor_missing('R1', 'String::' + name)
             continue
         I, r = arena.run_fn(ctx, b['id'], config)
-        muts = [e for e in r.events if e.is_own() and (e.kind == 'copy' or (e.kind == 'call' and e.callee and any(e.callee.endswith(m) for m in MUT)))]
+        # requirement side: besides the known byte-level primitives, *any* method of the byte vector that is handed the caller's
+        # index (vec.insert(idx, b), vec.remove(idx), ..) moves bytes at that index
+        def takes_index(e):
+            return 'collections::vec::Vec' in e.callee and len(e.args or ()) > 1 and any(ix in subterms(a) for a in e.args[1:] if isinstance(a, tuple) for ix in idxs)
+        muts = [e for e in r.events if e.is_own() and (e.kind == 'copy' or (e.kind == 'call' and e.callee and (any(e.callee.endswith(m) for m in MUT) or takes_index(e))))]
         # a crate-private helper that was inlined is judged by the mutations inside it (where its own checks are visible),
         # not by the call to it
         inlined = {f[0] for e in r.events for f in e.stack[1:]}
